@@ -344,6 +344,17 @@ def run_c14(tier, seed, replay=None):
             body = [["dfs"] + [SGen(rnd, defs=[MEM, LEN2], allow=["eq", "neq", "conj", "fresh", "cond", "closure", "member", "call", "true"]).goal(list(q), 2, True)]]
         body = fix_closures(body)
         cases.append(mk_case(DEFS, q, body, maxans=12, budget=1500))
+    # operands that are written identically are not therefore the same term: every `_` is a new variable
+    for _ in range(n // 6):
+        t = rnd.choice(["_", ["ilist", "_", "q"], ["list", "_", 1], ["cons", "_", "_"], ["comp", "Pair", "_", "q"], ["list", "q", "_"],
+                        ["list", ["list", "_"], 2]])
+        rel = rnd.choice(["neq", "neq", "eq"])
+        v = rnd.randint(1, 3)
+        body = rnd.choice([[[rel, t, t], ["eq", "q", v]],
+                           [["cond", ["conj", [rel, t, t], ["eq", "q", v]], ["eq", "q", v + 1]]],
+                           [["eq", "q", v], [rel, t, t]],
+                           [["fresh", ["x"], [rel, t, t], ["eq", "q", ["list", "x", v]]]]])
+        cases.append(mk_case(DEFS, ["q"], body, maxans=12, budget=1500, what="a goal whose two operands are written identically and contain `_`: each `_` is a new variable, the operands are different terms"))
     return run_compiled("C14", tier, seed, cases, oracle_ref,
         "random surface programs over the clause grammar: ==, !=, [..] conjunctions, |x| {..}, conde/cond, closure {..}, loop {..}, onceo, "
         "true/false, library and user-defined (recursive, closure- and direct-style) relation calls, dfs {..}; terms with literals of all "
